@@ -77,7 +77,8 @@ type Ctl struct {
 	syncing           atomic.Bool
 	lastRootUpdated   uint64
 	Sent              []*bft.Message  // every message this replica signed and sent since the harness last cleared it
-	MinEvidenceHeight uint64          // scripted: LoadMinimumEvidenceHeight
+	MinEvidenceHeight uint64          // scripted: LoadMinimumEvidenceHeight (when UnstakingBlocks is 0)
+	UnstakingBlocks   uint64          // when > 0 the answer is computed as the root chain does: (root height asked for) - unstaking blocks
 	AlreadySlashed    map[string]bool // scripted: "<address hex>@<root height>" pairs for which IsValidDoubleSigner answers false
 }
 
@@ -289,6 +290,13 @@ func (c *Ctl) LoadLastProposers(rootHeight uint64) (*lib.Proposers, lib.ErrorI) 
 }
 func (c *Ctl) LoadMinimumEvidenceHeight(rootChainId, rootHeight uint64) (*uint64, lib.ErrorI) {
 	z := c.MinEvidenceHeight
+	if c.UnstakingBlocks > 0 {
+		// what fsm.LoadMinimumEvidenceHeight answers on the root chain's state AS OF the height it is asked about
+		z = 0
+		if rootHeight > c.UnstakingBlocks {
+			z = rootHeight - c.UnstakingBlocks
+		}
+	}
 	return &z, nil
 }
 func (c *Ctl) IsValidDoubleSigner(rootChainId, rootHeight uint64, address []byte) bool {
